@@ -93,6 +93,25 @@ WitnessOK(hyp, nameSeq, t, h) ==
   /\ AllHoldAt(hyp, h.q, h.d)
   /\ BrokenAt(t, h.q, h.d)
 
+(* ---- two-scale witness points ------------------------------------------- *)
+(* Near-duplicate hyperplanes enclose a wedge too thin for a small-denominator point and too far  *)
+(* out for 32-bit products.  A two-scale point  p0 + w/D  (p0, w integer vectors, 0 < D <= 2000)   *)
+(* is evaluated without ever forming E*D:  row excess = (E*D + W)/D with E = Dot(r,p0) - c and     *)
+(* W = Dot(r,w);  E*D + W <= 0  iff  E <= (-W) \div D  (floor division), and                      *)
+(* 10^4*(E*D + W) > T*D  iff  10^4*E - T > (-(10^4*W)) \div D.                                     *)
+HoldsAt2(r, p0, w, D) == Dot(r, p0) - r.c <= (-Dot(r, w)) \div D
+BrokenAt2(r, p0, w, D) ==
+  LET E == Dot(r, p0) - r.c  W == Dot(r, w) IN
+  /\ Abs(E) <= 200000 /\ Abs(W) <= 200000        \* magnitudes for which the products below fit
+  /\ 10000 * E - (r.k + Abs(r.c)) > (-(10000 * W)) \div D
+InBox2(names, p0, w, D) ==
+  /\ D > 0 /\ D <= 2000
+  /\ \A v \in names : v \in DOMAIN p0 /\ v \in DOMAIN w /\ Abs(p0[v]) <= Box - 1 /\ Abs(w[v]) <= D
+WitnessOK2(hyp, nameSeq, t, h) ==
+  /\ InBox2(Rng(nameSeq) \cup RowsVars(hyp) \cup RowVars(t), h.q, h.w, h.d)
+  /\ \A i \in DOMAIN hyp : HoldsAt2(hyp[i], h.q, h.w, h.d)
+  /\ BrokenAt2(t, h.q, h.w, h.d)
+
 (* ---- TLC's own hint-independent search: an integer grid ---- *)
 Grid(names, g) == [names -> -g..g]
 GridViolated(hyp, names, t, g) ==
@@ -104,6 +123,7 @@ GridViolated(hyp, names, t, g) ==
 \* "open"  : neither (counted as unjudged, never an alarm)
 Decide(hyp, nameSeq, t, h, g) ==
   IF h.kind = "witness" /\ WitnessOK(hyp, nameSeq, t, h) THEN "broken"
+  ELSE IF h.kind = "witness2" /\ WitnessOK2(hyp, nameSeq, t, h) THEN "broken"
   ELSE IF g > 0 /\ GridViolated(hyp, Rng(nameSeq), t, g) THEN "broken"
   ELSE IF h.kind = "cert" /\ FarkasOK(hyp, nameSeq, t, h) THEN "holds"
   ELSE IF h.kind = "infeasible" /\ InfeasOK(hyp, nameSeq, h) THEN "holds"
